@@ -262,7 +262,7 @@ theorem no_write_while_waiting (hist : List Out) (st : St) (e : Ev) (j : Nat) (h
   rw [step_eq_pre]
   cases (pre st e).2
   · exact ⟨hq.2.2, hq.2.1⟩
-  · have := quiet_settle j settleFuel _ hq
+  · have := quiet_settle j (settleFuel (pre st e).1) _ hq
     exact ⟨this.2.2, this.2.1⟩
 
 end Zboss.Host
